@@ -40,39 +40,40 @@ Theorem C16_parse_plain : forall C, cc_ok C -> forall T,
 Proof. exact parse_plain. Qed.
 Print Assumptions C16_parse_plain.
 
-(* to_string(from_string(text)) reproduces the text exactly *)
+(* THE FIRST HALF OF THE PROPERTY, full strength: from the interpreter's rendering of any
+   well-formed structured traceback -- recursive entries folded into "[Previous line repeated N
+   more times]" as traceback.StackSummary.format does -- from_string recovers every entry, the
+   type and the message, and to_string reproduces the text exactly.  [src_consistent]: entries
+   at the same file/line/function show the same source text (what linecache gives at any one
+   moment; otherwise folded entries cannot be recovered by anybody). *)
+Theorem C16_parse_std : forall C, cc_ok C -> forall T,
+  wf C T = true -> src_consistent (t_frames T) = true -> from_string C (std_text T) = Ok T.
+Proof. exact parse_std_text. Qed.
+Print Assumptions C16_parse_std.
+
 Theorem C16_text_roundtrip : forall C, cc_ok C -> forall T,
-  wf C T = true -> parse_print C (plain_text T) = Ok (plain_text T).
+  wf C T = true -> src_consistent (t_frames T) = true ->
+  parse_print C (std_text T) = Ok (std_text T).
 Proof. exact text_roundtrip. Qed.
 Print Assumptions C16_text_roundtrip.
 
-(* ... and drops the marker lines, nothing else *)
+(* with position-marker lines in the text: they are dropped, nothing else changes *)
 Theorem C16_marked_roundtrip : forall C, cc_ok C -> forall T ms,
   wf C T = true -> markers_ok ms = true -> length ms = length (t_frames T) ->
-  parse_print C (marked_text T ms) = Ok (plain_text T).
+  parse_print C (marked_text T ms) = Ok (std_text T).
 Proof. exact marked_roundtrip. Qed.
 Print Assumptions C16_marked_roundtrip.
 
-(* the interpreter's rendering (recursive entries folded) is the plain one unless more
-   than three identical entries follow each other *)
+(* the interpreter's rendering is the plain one unless more than three identical entries
+   follow each other *)
 Theorem C16_std_is_plain : forall T, long_repeat (t_frames T) = false -> std_text T = plain_text T.
 Proof. exact std_text_plain. Qed.
 Print Assumptions C16_std_is_plain.
 
-(* FULL STATEMENT (refuted below, recorded finding C16-recursion-folding-parse):
-     forall C, cc_ok C -> forall T, wf C T = true ->
-       from_string C (std_text T) = Ok T /\ parse_print C (std_text T) = Ok (std_text T).
-   Proved outside the guard [long_repeat]: *)
-Theorem C16_std_roundtrip_partial : forall C, cc_ok C -> forall T,
-  wf C T = true -> long_repeat (t_frames T) = false ->
-  from_string C (std_text T) = Ok T /\ parse_print C (std_text T) = Ok (std_text T).
-Proof. exact std_roundtrip_partial. Qed.
-Print Assumptions C16_std_roundtrip_partial.
-
-Theorem C16_std_roundtrip_refuted :
-  exists T, wf py_cc T = true /\ from_string py_cc (std_text T) <> Ok T.
-Proof. exact std_roundtrip_refuted. Qed.
-Print Assumptions C16_std_roundtrip_refuted.
+(* to_string alone: always the interpreter's rendering *)
+Theorem C16_to_string_std : forall T, has_funcs (t_frames T) = true -> to_string T = Ok (std_text T).
+Proof. exact to_string_std. Qed.
+Print Assumptions C16_to_string_std.
 
 (* ---- second half: ExceptionInfo against the interpreter ----------------------------------------------- *)
 (* same entries: file, line number, function, source text *)
@@ -109,19 +110,12 @@ Theorem C16_format_std : forall C fs e, ei_text C fs e = std_text (ei_tb C fs e)
 Proof. exact ei_text_std. Qed.
 Print Assumptions C16_format_std.
 
-(* FULL STATEMENT (refuted below, finding C16-recursion-folding-parse): ParsedException reads
-   ExceptionInfo's text back, forall fs e with wf (ei_tb fs e).  Proved without folded entries: *)
-Theorem C16_format_reparse_partial : forall C, cc_ok C -> forall fs e,
-  wf C (ei_tb C fs e) = true -> long_repeat (map (std_frame C) fs) = false ->
+(* ... and ParsedException reads it back, recursion or not *)
+Theorem C16_format_reparse : forall C, cc_ok C -> forall fs e,
+  wf C (ei_tb C fs e) = true -> src_consistent (map (std_frame C) fs) = true ->
   from_string C (ei_text C fs e) = Ok (ei_tb C fs e).
-Proof. exact format_reparse_partial. Qed.
-Print Assumptions C16_format_reparse_partial.
-
-Theorem C16_format_reparse_refuted :
-  exists fs e, wf py_cc (ei_tb py_cc fs e) = true /\
-               from_string py_cc (ei_text py_cc fs e) <> Ok (ei_tb py_cc fs e).
-Proof. exact format_reparse_refuted. Qed.
-Print Assumptions C16_format_reparse_refuted.
+Proof. exact format_reparse. Qed.
+Print Assumptions C16_format_reparse.
 
 Theorem C16_lineno_always_ok : forall C, cc_ok C -> forall n, lineno_ok C (dec n) = true.
 Proof. exact dec_lineno_ok. Qed.
@@ -139,6 +133,13 @@ Theorem C16_check_sound_roundtrip : forall T ms,
 Proof. exact rt_sound. Qed.
 Print Assumptions C16_check_sound_roundtrip.
 
+Theorem C16_check_sound_folded : forall T ms,
+  long_repeat (t_frames T) = true ->
+  rt_verdict T ms (std_text T) (fst (model_parse_print (std_text T))) (snd (model_parse_print (std_text T)))
+  = (true, true, false).
+Proof. exact rt_sound_folded. Qed.
+Print Assumptions C16_check_sound_folded.
+
 Theorem C16_check_sound_live : forall fs e,
   plain_exc e = true ->
   ei_verdict fs e (std_text (std_tb P fs e)) (model_ei fs e) = (true, true, false).
@@ -151,6 +152,13 @@ Example wf_inhabited :
   from_string py_cc (marked_text good_tb good_marks) = Ok good_tb /\
   parse_print py_cc (marked_text good_tb good_marks) = Ok (std_text good_tb).
 Proof. vm_compute. repeat split; reflexivity. Qed.
+
+(* a recursive traceback: 5 identical entries, folded by the interpreter, read back and printed back *)
+Example folded_inhabited :
+  wf py_cc rec_tb = true /\ src_consistent (t_frames rec_tb) = true /\ long_repeat (t_frames rec_tb) = true /\
+  std_text rec_tb <> plain_text rec_tb /\
+  from_string py_cc (std_text rec_tb) = Ok rec_tb /\ parse_print py_cc (std_text rec_tb) = Ok (std_text rec_tb).
+Proof. vm_compute. repeat split; try reflexivity. discriminate. Qed.
 
 Example live_inhabited :
   wf py_cc (std_tb py_cc live_fs live_e) = true /\ long_repeat (map (std_frame py_cc) live_fs) = false /\
@@ -165,6 +173,11 @@ Example needs_func_no_quote : refutes bad_func_quote.        Proof. split; vm_co
 Example needs_lineno_digits : refutes bad_lineno.            Proof. split; vm_compute; [reflexivity|discriminate]. Qed.
 Example needs_src_stripped : refutes bad_src_space.          Proof. split; vm_compute; [reflexivity|discriminate]. Qed.
 Example needs_src_not_frame_like : refutes bad_src_frame.    Proof. split; vm_compute; [reflexivity|discriminate]. Qed.
+Example needs_src_not_fold_like : refutes bad_src_fold.       Proof. split; vm_compute; [reflexivity|discriminate]. Qed.
+Example needs_same_place_same_source :
+  wf py_cc bad_inconsistent = true /\ src_consistent (t_frames bad_inconsistent) = false /\
+  from_string py_cc (std_text bad_inconsistent) <> Ok bad_inconsistent.
+Proof. vm_compute. repeat split; try reflexivity. discriminate. Qed.
 Example needs_type_no_colon_blank : refutes bad_type_colon.  Proof. split; vm_compute; [reflexivity|discriminate]. Qed.
 Example needs_type_not_marker_like : refutes bad_type_carets.  Proof. split; vm_compute; [reflexivity|discriminate]. Qed.
 Example needs_type_no_leading_blank : refutes bad_type_space.  Proof. split; vm_compute; [reflexivity|discriminate]. Qed.
